@@ -23,7 +23,8 @@ MANIFEST = dict(
           "back), fallback_by_codec_class (single-byte: not in the table; UTFs: exactly the lone surrogates), utf_needs_no_references, "
           "encode_default_is_utf8. LOSSLESS: lossless_text / lossless_attr (reading back the replaced, entity-substituted text / quoted "
           "value as html.parser+bs4 / html.unescape do, over the generated windows-1252 and html.unescape tables; hypothesis CharrefSafe; "
-          "lossless_*_needs_safe = the two known findings, decided) and encoding_touches_values_only (tree level: xmlcharrefreplace "
+          "lossless_*_needs_safe = the two known findings, decided; lookalike_references + minimal_formatter_is_substitute_xml: text that "
+          "merely spells a reference comes back verbatim because the generated registry entry escapes every &) and encoding_touches_values_only (tree level: xmlcharrefreplace "
           "commutes with rendering, the markup skeleton is untouched). DECLARATION: meta_rewritten_charset, meta_content_placeholder "
           "(string or list-valued http-equiv), meta_both_styles (+ setUpSubstitutionsOld / meta_both_styles_old_stale / setUp_old_agrees), new_tag_meta_rewritten / "
           "new_tag_content_placeholder / new_tag_attrs_win (a <meta> made with soup.new_tag(attrs=…, **kw)), "
@@ -155,13 +156,17 @@ KF_ITEM = "C08-meta-item-assignment"
 ITEM_HOWS = ("item_assignment", "reassigned_same", "reassigned_other")
 
 
+_HIST_OK = []   # per step of the history applied last: did it go through (apply_history)
+
+
 def item_kf(recipe, history, which):
     """classifier of the item-assignment finding, from the case itself: the declaring value `which` ("charset" / "content")
     of the <meta> that ends up in the rendered tree was last written by `tag[key] = value` (a pickle round trip afterwards
     re-parses the markup and installs placeholders again, so the finding no longer applies then)"""
     meta = recipe["meta"]
     how = meta.get("how", "parsed")
-    if how not in ITEM_HOWS or any(st[0] == "pickle" for st in (history or [])):
+    healed = any(st[0] == "pickle" and ok for st, ok in zip(history or [], _HIST_OK))   # only a pickle step that really happened
+    if how not in ITEM_HOWS or healed:
         return None
     if how == "item_assignment":
         return KF_ITEM            # every attribute of that tag was assigned
@@ -353,6 +358,13 @@ def rand_char(r):
     return r.choice(POOLS["ws"])
 
 
+# text that merely SPELLS a reference (a page explaining HTML entities): the writer must escape its `&`, or the bytes cannot be
+# told from real xmlcharrefreplace output and the value is not recovered
+LOOKALIKES = ["&#233;", "&#xE9;", "&#Xe9;", "&eacute;", "&amp;", "&lt;", "&gt;", "&quot;", "&apos;", "&nbsp;", "a&b;c", "x=a&b;y=c",
+              "&#9731;", "&#x2603;", "&#128;", "&#0;", "&#65", "&#x41", "&copy", "&notit;", "&lang;", "&amp;amp;", "&amp;#233;",
+              "&#1114112;", "&#xD800;", "&;", "&#;", "&#x;", "&a1;", "&_x;", "AT&T;", "&Eacute;&eacute;"]
+
+
 def rand_value(r, enc, ctx, bait=None, maxlen=8):
     """a text / attribute value; characters at which the target codec is not round-trip lawful are dropped and counted"""
     f = facts(enc)
@@ -368,8 +380,12 @@ def rand_value(r, enc, ctx, bait=None, maxlen=8):
         out.insert(r.randrange(len(out) + 1), r.choice(C1))
     elif bait == "nonchar":
         out.insert(r.randrange(len(out) + 1), r.choice(NONCHARS))
+    if r.random() < 0.12:
+        # a look-alike reference, between whatever neighbours the value has (often characters the target cannot encode)
+        out.insert(r.randrange(len(out) + 1), r.choice(LOOKALIKES))
+        ctx.count("value:with-lookalike-reference")
     res = []
-    for ch in out:
+    for ch in "".join(out):
         if f.lawful(ch):
             res.append(ch)
         else:
@@ -509,6 +525,8 @@ def config_kwargs(cfg):
         if "SubTag" not in e:
             class SubTag(e["el"].Tag):
                 pass
+            SubTag.__qualname__ = "SubTag"      # reachable as harness.c08.SubTag, so that trees holding it can be pickled
+            globals()["SubTag"] = SubTag
             e["SubTag"] = SubTag
         return {"element_classes": {e["el"].Tag: e["SubTag"]}}, True
     if cfg == "string_containers_empty":
@@ -595,8 +613,10 @@ def apply_history(soup, history):
     rendering says — placeholders are not consumed, cached or lost"""
     import copy
     import pickle
+    del _HIST_OK[:]
     for step in history or []:
         op = step[0]
+        _HIST_OK.append(True)
         try:
             if op == "call":
                 call_entry(soup, step[1], step[2])
@@ -617,7 +637,7 @@ def apply_history(soup, history):
                 E()["el"].ContentMetaAttributeValue(step[1])
                 E()["el"].CharsetMetaAttributeValue(step[1])
         except Exception:
-            pass   # a raising call is a violation where that call is itself the case; here only its after-effects matter
+            _HIST_OK[-1] = False   # a raising call is a violation where that call is itself the case; here only its after-effects matter
     return soup
 
 
@@ -1370,6 +1390,18 @@ def stream_history(ctx, batch):
 
 def stream_docs(ctx, batch):
     r = ctx.rng("docs")
+    # directed: every look-alike reference, alone and between neighbours the target cannot encode, as text and as attribute value
+    for i, la in enumerate(LOOKALIKES):
+        for enc in ("ascii", "utf-8", "koi8-r", "utf-16", "shift_jis"):
+            f = facts(enc)
+            nb = "".join(ch for ch in "é☃я" if f.lawful(ch))
+            items = [{"name": "p", "id": "n1", "attrs": [["title", la, None], ["alt", nb[:1] + la + nb[1:], None], ["data-v", la + '"' + "'", None]],
+                      "kids": [{"text": "write " + la + " to get " + nb, "bait": None}]},
+                     {"name": "div", "id": "n2", "attrs": [], "kids": [{"text": la, "bait": None}]}]
+            recipe = {"meta": NAME_METAS[(i + len(enc)) % len(NAME_METAS)], "items": items}
+            check_doc(ctx, batch, recipe, enc, ENTRIES[(i + len(enc)) % 4], "docs-lookalike")
+    ctx.exhaustive_parts.append(f"look-alike references: {len(LOOKALIKES)} spellings (decimal, hex, named, malformed) x text / 3 attribute "
+                                "positions x 5 targets, through the document oracle")
     # directed: every builder configuration x every way of getting the declaring <meta> into the tree x every declaration
     for cfg in sorted(set(CONFIG_NAMES)):
         for how in sorted(set(HOWS)):
